@@ -221,11 +221,22 @@ func (w *world) doOp(tr *vhlib.Trace, p vhlib.ParsedLine, pick func(n int, kinds
 		return
 	}
 	// 1. the uninterrupted twin
+	var mirrorBefore snapshot
+	if w.twin.mgr != nil {
+		mirrorBefore = w.twin.mirrorSnapshot(w.b.liveIDs())
+	}
 	w.twin.inj.Count()
 	twinRes := runOn(w.twin, o)
 	tres := w.twin.inj.Disarm()
 	n := tres.Points
 	twinAfter := w.snap(w.twin)
+	// which in-memory components the operation changes when it succeeds
+	var mchg []string
+	if w.twin.mgr != nil {
+		for _, c := range w.twin.mirrorSnapshot(w.b.liveIDs()).diff(mirrorBefore) {
+			mchg = append(mchg, strings.TrimPrefix(c, "m:"))
+		}
+	}
 
 	var ks, crash []int
 	if _, ok := p.Args["ks"]; ok {
@@ -326,8 +337,8 @@ func (w *world) doOp(tr *vhlib.Trace, p vhlib.ParsedLine, pick func(n int, kinds
 	}
 	cacheAfter := w.main.cacheDiff(w.b.liveIDs()) // after the bookkeeping: a renewed predecessor is no longer live
 	tr.Count("op:" + o.name + ":" + twinRes)
-	tr.Line(line, fmt.Sprintf("twin=%s n=%d kinds=%s txs=%s f=%s diff=%s cr=%s retry=%s eq=%d rdiff=%s cache=%s integ=%s",
-		twinRes, n, orDash(tres.Kinds), orDash(tres.Txs), vhlib.FmtList(fs), plus(dl), vhlib.FmtList(crs), retry, eq, plus(rdiff), plus(cacheAfter), w.main.integrity()))
+	tr.Line(line, fmt.Sprintf("twin=%s n=%d kinds=%s txs=%s mchg=%s f=%s diff=%s cr=%s retry=%s eq=%d rdiff=%s cache=%s integ=%s",
+		twinRes, n, orDash(tres.Kinds), orDash(tres.Txs), plus(mchg), vhlib.FmtList(fs), plus(dl), vhlib.FmtList(crs), retry, eq, plus(rdiff), plus(cacheAfter), w.main.integrity()))
 }
 
 func orDash(s string) string {
@@ -534,6 +545,7 @@ func (w *world) doRestart(tr *vhlib.Trace, p vhlib.ParsedLine) {
 		scope = "alerts/info"
 	}
 	before := w.observe(w.main)
+	nhooks := len(w.hookInfos(w.main))
 	expect := matchCount(w.hookInfos(w.main), scope)
 	dlvb := w.deliver(w.main, scope, expect)
 	var alters []string
@@ -564,7 +576,7 @@ func (w *world) doRestart(tr *vhlib.Trace, p vhlib.ParsedLine) {
 		}
 	}
 	tr.Count("restart:" + p.Args["mode"])
-	tr.Line(p.Raw, fmt.Sprintf("%s hooks=%d dlvb=%s dlva=%s alters=%s cache=%s integ=%s stale=%d", strings.Join(parts, " "), expect,
+	tr.Line(p.Raw, fmt.Sprintf("%s nhooks=%d hooks=%d dlvb=%s dlva=%s alters=%s cache=%s integ=%s stale=%d", strings.Join(parts, " "), nhooks, expect,
 		vhlib.FmtList(dlvb), vhlib.FmtList(dlva), vhlib.FmtList(alters), plus(w.main.cacheDiff(w.b.liveIDs())), w.main.integrity(), stale))
 }
 
